@@ -27,6 +27,12 @@ fn parse_t(s: &str) -> Option<ResourceType> {
 fn run(ws: &[&str]) -> (String, String, String) {
     let bad = || ("bad-case".to_string(), "ok".to_string(), String::new());
     match ws {
+        ["conc", th, rounds] => {
+            return match (th.parse::<usize>(), rounds.parse::<usize>()) {
+                (Ok(t), Ok(r)) => run_conc(t, r),
+                _ => bad(),
+            }
+        }
         ["acc", raw] => {
             let Ok(raw) = raw.parse::<u64>() else { return bad() };
             let id = ResourceId::from(raw as usize);
@@ -167,6 +173,84 @@ fn table_row(out: &mut impl std::io::Write) {
     emit(out, "#table", &detail.join(" "), if ok { "ok" } else { "FAIL" }, "table");
 }
 
+/// `rid conc <threads> <rounds>`: registrations racing each other on one node — `threads` user threads
+/// call connect() (Udp: cheap, same Remote registry; Tcp to the node's own listener, so that the accepts
+/// on the network thread register into the same Tcp registry at the same time) and remove(); every id
+/// ever handed out by connect() or reported by Accepted must be distinct, and remove() of a fresh id
+/// of a fresh Udp id must return true (a duplicate id makes one of two removes fail)
+fn run_conc(threads: usize, rounds: usize) -> (String, String, String) {
+    use message_io::network::NetEvent;
+    use message_io::node::{self, NodeEvent};
+    use std::sync::{Arc, Barrier, Mutex};
+    if threads == 0 || threads > 64 || rounds > 1_000_000 {
+        return ("bad-case".into(), "ok".into(), String::new())
+    }
+    let (handler, listener) = node::split::<()>();
+    let udp_peer = std::net::UdpSocket::bind("127.0.0.1:0").unwrap();
+    let udp_addr = udp_peer.local_addr().unwrap();
+    let (_lid, tcp_addr) = handler.network().listen(Transport::Tcp, "127.0.0.1:0").unwrap();
+    let accepted: Arc<Mutex<Vec<ResourceId>>> = Arc::new(Mutex::new(vec![]));
+    let acc2 = accepted.clone();
+    let h2 = handler.clone();
+    let task = listener.for_each_async(move |e| {
+        if let NodeEvent::Network(NetEvent::Accepted(ep, _)) = e {
+            acc2.lock().unwrap().push(ep.resource_id());
+            h2.network().remove(ep.resource_id());
+        }
+    });
+    let barrier = Arc::new(Barrier::new(threads));
+    let mut hs = vec![];
+    for t in 0..threads {
+        let (h, b) = (handler.clone(), barrier.clone());
+        hs.push(std::thread::spawn(move || {
+            let mut ids = vec![];
+            let mut failed_removes = 0usize;
+            b.wait();
+            for r in 0..rounds {
+                // one thread in four (and every 16th round of the others) goes through Tcp
+                let tcp = t % 4 == 3 || r % 16 == 15;
+                let res = if tcp { h.network().connect(Transport::Tcp, tcp_addr) } else { h.network().connect(Transport::Udp, udp_addr) };
+                if let Ok((ep, _)) = res {
+                    ids.push(ep.resource_id());
+                    if tcp {
+                        // leave the connection alive for a moment so that the accept happens
+                        if r % 4 == 0 {
+                            std::thread::yield_now();
+                        }
+                    }
+                    // a Tcp connect may already have failed and been deregistered by the processor
+                    // (accept queue overflow under this load): only Udp removes must succeed
+                    if !h.network().remove(ep.resource_id()) && !tcp {
+                        failed_removes += 1;
+                    }
+                }
+            }
+            (ids, failed_removes)
+        }));
+    }
+    let mut all: Vec<ResourceId> = vec![];
+    let mut failed = 0;
+    for h in hs {
+        let (ids, f) = h.join().unwrap();
+        all.extend(ids);
+        failed += f;
+    }
+    std::thread::sleep(std::time::Duration::from_millis(100));
+    handler.stop();
+    drop(task);
+    let connects = all.len();
+    all.extend(accepted.lock().unwrap().iter().copied());
+    let total = all.len();
+    let mut seen = std::collections::HashSet::new();
+    let dup = all.iter().filter(|id| !seen.insert(**id)).count();
+    let ok = dup == 0 && failed == 0;
+    (
+        format!("dup={} failed_removes={}", dup, failed),
+        if ok { "ok".into() } else { format!("FAIL {} of {} ids handed out more than once; {} remove() of a fresh id returned false", dup, total, failed) },
+        format!("conc,ids{}k,accepted{}", connects / 1000, if total > connects { "+" } else { "0" }),
+    )
+}
+
 fn main() {
     quiet_panics();
     let out = std::io::stdout();
@@ -176,6 +260,11 @@ fn main() {
             let mut rng = Rng::new(arg_u64(2, 1));
             let n = arg_u64(3, 1000);
             table_row(&mut out);
+            for (th, rounds) in [(8usize, if n >= 100000 { 100000 } else { 20000 }), (3, 1500)] {
+                let (sa, sb) = (th.to_string(), rounds.to_string());
+                let (imp, o, t) = run(&["conc", &sa, &sb]);
+                emit(&mut out, &format!("rid conc {} {}", th, rounds), &imp, &o, &t);
+            }
             for raw in structured_raws(&mut rng, n) {
                 for kind in ["acc", "tok"] {
                     let c = format!("rid {} {}", kind, raw);
